@@ -15,7 +15,8 @@ THRESHOLDS = [[1, 3], [1, 2], [2, 3], [1, 1], [3, 10], [7, 10], [4, 5], [5, 7], 
               # thresholds that need more than two / four decimals
               [33333, 100000], [33334, 100000], [66667, 100000], [70711, 100000], [49999, 100000], [618, 1000]]
 OUTS = [None, None, [], ['a'], ['b', 'a'], ['s'], ['id', 'a'], ['a', 'a'], ['b', 's', 'a'],
-        ['a', 'b', 'a'], ['s', 's'], ['d'], ['d', 'a'], ['a', 'd', 'b'], ['b', 'd', 's', 'a']]
+        ['a', 'b', 'a'], ['s', 's'], ['d'], ['d', 'a'], ['a', 'd', 'b'], ['b', 'd', 's', 'a'],
+        ['id', 'a', 'id'], ['id', 'id'], ['a', 'id', 's', 'id']]
 COLORDERS = [['id', 's', 'a', 'b'], ['a', 's', 'b', 'id'], ['s', 'b', 'id', 'a'], ['b', 'a', 's', 'id']]
 LKEYS = [2, 3, 1, 5, 4, 6, 7, 8]
 RKEYS = [12, 11, 13, 15, 14, 16, 17, 18]
@@ -93,7 +94,7 @@ def set_case(rng, pair, slot):
         case.update(kind='ftab', api='OVERLAP.filter_tables', meas='OVERLAP', filt='OVERLAP',
                     op=rng.choice(['>=', '>', '=']), sc=rng.choice([0, 1]))
         case['tok']['rs'] = 1
-    case['t'] = [rng.choice([1, 1, 2, 3]), 1] if case['meas'] == 'OVERLAP' else rng.choice(THRESHOLDS)
+    case['t'] = rng.choice([[1, 1], [1, 1], [2, 1], [3, 1], [3, 2], [5, 2]]) if case['meas'] == 'OVERLAP' else rng.choice(THRESHOLDS)
     case['ae'] = rng.choice([1, 0])
     case['am'] = rng.choice([0, 1])
     case['lout'] = rng.choice(OUTS)
